@@ -78,7 +78,8 @@ def plan(tier, seed, acts_extra=(), lvl2=True, nonsq=False):
     # a scalar operator followed by two more factors (what (c * M) @ N flattens to), and three Kronecker factors of
     # three different sizes in every order (dimension 6)
     sc3 = [L[n] for n in ["Sc2n", "Sc2c", "Sc2"]]
-    runs.append(dict(seeds=sc3, operands=ops2[:3], small=[L["D22s"], L["Dg2n"], L["TL22"]],
+    # (Product3 builds Product(o1, t, o2) with o1, o2 from `small`: the scalar operators go first / last there)
+    runs.append(dict(seeds=[L["D22s"], L["Dg2n"], L["TL22"], L["D22c"]], operands=ops2[:3], small=sc3[:2] + [L["D22h"]],
                      acts={"Product3", "linalg"} | set(acts_extra), lvl=1, dim=4, ebound=40))
     k3 = [L["Sy22"], catalog.dense([[1]], "f64"), L["Sy33"], catalog.dense([[2]], "f64")]
     runs.append(dict(seeds=k3, operands=k3[:1], small=[k3[1], k3[2], k3[0]],
